@@ -22,6 +22,9 @@ type Conv struct {
 	// All position fields met during conversion (for C17's Ln/Col consistency check).
 	All []PosRec
 	Err error
+	// depth of the node being converted; on guards against a "tree" in which a node is reachable from itself
+	depth int
+	on    map[*ast.Node]bool
 }
 
 func (c *Conv) pos(what, kind string, p token.LnColPos) int {
@@ -66,7 +69,20 @@ func (c *Conv) Node(a *ast.Node) (out *gen.Node) {
 	if a == nil {
 		return nil
 	}
+	if c.on == nil {
+		c.on = map[*ast.Node]bool{}
+	}
+	if c.on[a] {
+		return c.fail("the tree is not a tree: a node of type %s is reachable from itself", a.NodeType)
+	}
+	if c.depth > 500000 {
+		return c.fail("the tree is deeper than 500000 nodes")
+	}
+	c.on[a] = true
+	c.depth++
 	defer func() {
+		c.depth--
+		delete(c.on, a)
 		if r := recover(); r != nil {
 			out = c.fail("malformed node of type %s: %v", a.NodeType, r)
 		}
